@@ -2,6 +2,11 @@
 
 package store
 
+import "sync"
+
 // verifMark is a crash-point marker used by the model-based verification harness (build tag
 // `verif`). Without the tag it is an empty, inlinable function.
 func verifMark(string, uint64, string) {}
+
+// verifMarkLock marks the acquisition / release of one lock of a multiLock.
+func verifMarkLock(string, *sync.RWMutex) {}
